@@ -69,6 +69,8 @@ type Step struct {
 	Kind     string     `json:"kind,omitempty"`
 	Via      string     `json:"via,omitempty"`
 	Fresh    bool       `json:"fresh,omitempty"`
+	Gs       []*ConcG   `json:"gs,omitempty"`
+	Schedule []string   `json:"schedule,omitempty"`
 
 	// orchestrator-side expectations (ignored by the driver)
 	X *Expect `json:"x,omitempty"`
@@ -82,6 +84,12 @@ type Expect struct {
 	VID     string     `json:"vid,omitempty"`     // value identity when the text is only known to go-snaps
 	Inj     bool       `json:"inj,omitempty"`     // VID is injective within its family
 	Text    *string    `json:"text,omitempty"`    // expected formatted text when known independently
+}
+
+type ConcG struct {
+	G     string  `json:"g"`
+	Test  string  `json:"test"`
+	Steps []*Step `json:"steps"`
 }
 
 type Val struct {
@@ -160,6 +168,9 @@ func (s *Scenario) stepByID() map[string]*Step {
 		for _, st := range steps {
 			m[st.ID] = st
 			walk(st.Steps)
+			for _, g := range st.Gs {
+				walk(g.Steps)
+			}
 		}
 	}
 	for _, p := range s.Procs {
@@ -183,6 +194,9 @@ func (s *Scenario) assignIDs() {
 				n++
 				st.ID = fmt.Sprintf("p%d.%d", pi, n)
 				walk(st.Steps)
+				for _, g := range st.Gs {
+					walk(g.Steps)
+				}
 			}
 		}
 		walk(p.Steps)
@@ -348,6 +362,21 @@ func runScenarios(sc *Scratch, d *Driver, scs []*Scenario, workers int, pool ...
 						cp := *st
 						if cp.Cfg != "" {
 							cp.Cfg = s.ID + "/" + cp.Cfg
+						}
+						if len(cp.Gs) > 0 { // goroutines of a conc step carry steps of their own
+							var gs []*ConcG
+							for _, g := range cp.Gs {
+								ng := &ConcG{G: g.G, Test: g.Test}
+								for _, gst := range g.Steps {
+									gcp := *gst
+									if gcp.Cfg != "" {
+										gcp.Cfg = s.ID + "/" + gcp.Cfg
+									}
+									ng.Steps = append(ng.Steps, &gcp)
+								}
+								gs = append(gs, ng)
+							}
+							cp.Gs = gs
 						}
 						h.Steps = append(h.Steps, &cp)
 					}
